@@ -24,6 +24,7 @@ func runC02(c *Ctx) {
 	P := c.P
 	c.Explanation = "Decides ONLY the wiring of the mechanism that enforces the bound, not the bound: (R-DEPTH-BUDGET) the recursive insertion passes a depth budget that decreases by a positive constant on every recursive descent (both sides), raises its 'too deep' flag when a node is created with the budget exhausted, and Add/Replace start it from the tree's limit function applied to the (prospective) size; (R-GOAT-REBUILD) on the way back up, under a raised flag, a subtree whose height exceeds its own limit is rebuilt from (that subtree, its size — sibling size + 1 + flagged size), the rebuilt subtree is what is returned, and the flag is cleared. Each is a necessary condition: without it some insertion history (e.g. ascending keys) grows a path of unbounded depth with no rebuild. The goat criterion's limit is taken for the very size the subtree is rebuilt with. (R-LOOKUP-COST) everything Tree.Get reaches compares keys at exactly one site, inside the descent: one comparison per level. Does NOT decide the numeric bound log_{2000/(1000+β)} P + 1 (limitFunc's floating-point formula, the choice of scapegoat, the DSW rebuild producing a balanced tree, the delete-side threshold), nor the minimum-height claim for New."
 	c.rule("R-DEPTH-BUDGET", 4, "budget decreases by a positive constant on each recursive descent; exhaustion raises the flag at the new leaf; Add/Replace start from limit(size[+1])")
+	ruleFractionRange(c)
 	c.rule("R-LOOKUP-COST", 1, "everything Tree.Get reaches compares keys at exactly one site, which lies in a descent loop (or a self-recursive descent): one comparison per level")
 	ruleLookupCost(c)
 	c.rule("R-GOAT-REBUILD", 1, "under a raised flag and height > limit(subtree size) the subtree is rebuilt with its size, returned, and the flag cleared")
@@ -199,6 +200,109 @@ func runC02(c *Ctx) {
 		c.undecided("R-DEPTH-BUDGET", "stree.(*Tree).insert:leaf", ins.Pos(), "the base case that allocates the new node was not recognised")
 	} else {
 		c.judge(leafOK, "R-DEPTH-BUDGET", "stree.(*Tree).insert:leaf", leafPos, "creating a node with the budget exhausted raises the flag", "a node created below the depth limit does not raise the 'too deep' flag: no scapegoat search is ever started")
+	}
+	// (a2) the height the goat criterion compares is the recursion's height plus one on EVERY descent
+	// (a descent that forgets the +1 makes paths through it look shorter than they are)
+	{
+		// the height result: the int result of the recursion, other than the flag, that is compared with a limit call
+		hIdx := -1
+		allInstrs(ins, func(in ssa.Instruction) {
+			bo, ok := in.(*ssa.BinOp)
+			if !ok {
+				return
+			}
+			for _, pr := range [][2]ssa.Value{{bo.X, bo.Y}, {bo.Y, bo.X}} {
+				call, ok := pr[1].(*ssa.Call)
+				if !ok || limitCallField(call) == nil {
+					continue
+				}
+				var ls []ssa.Value
+				phiLeaves(pr[0], nil, map[ssa.Value]bool{}, &ls)
+				for _, l := range ls {
+					if add, ok := l.(*ssa.BinOp); ok && add.Op == token.ADD {
+						l = add.X
+					}
+					if ex, ok := l.(*ssa.Extract); ok && ex.Index != flagIdx {
+						if c2, ok := ex.Tuple.(*ssa.Call); ok && staticCallee(&c2.Call) == ins {
+							hIdx = ex.Index
+						}
+					}
+				}
+			}
+		})
+		if hIdx >= 0 {
+			var bare []string
+			n := 0
+			for _, call := range selfCalls {
+				for _, r := range referrersOf(call) {
+					ex, ok := r.(*ssa.Extract)
+					if !ok || ex.Index != hIdx {
+						continue
+					}
+					n++
+					// every use of the extracted height that flows on (φ, return, comparison) goes through +const>0
+					for _, u := range referrersOf(ex) {
+						switch x := u.(type) {
+						case *ssa.BinOp:
+							if k, ok := constInt(x.Y); ok && x.Op == token.ADD && k > 0 && x.X == ssa.Value(ex) {
+								continue
+							}
+							bare = append(bare, c.P.pos(x.Pos()))
+						case *ssa.Phi, *ssa.Return:
+							bare = append(bare, c.P.pos(call.Pos()))
+						}
+					}
+				}
+			}
+			sort.Strings(bare)
+			if n > 0 {
+				c.judge(len(bare) == 0, "R-DEPTH-BUDGET", "stree.(*Tree).insert:height counts every descent", ins.Pos(), "the recursion's height is incremented after each recursive call before it is used", fmt.Sprintf("the height returned by a recursive call is used without +1 (descent at %v): paths through that side look shorter than they are, and the scapegoat criterion never fires on them", bare))
+			}
+		}
+	}
+	// (a3) the limit function installed by New is built from New's balance parameter
+	if nw := P.Func("stree", "", "New"); nw != nil && limitF != nil {
+		var betaParam *ssa.Parameter
+		for _, p := range nw.Params {
+			if isIntType(p.Type()) {
+				betaParam = p
+				break
+			}
+		}
+		n := 0
+		allInstrs(nw, func(in ssa.Instruction) {
+			st, ok := in.(*ssa.Store)
+			if !ok {
+				return
+			}
+			fa, ok := st.Addr.(*ssa.FieldAddr)
+			if !ok {
+				return
+			}
+			if _, f := fieldVarOf(fa); !sameField(f, limitF) {
+				return
+			}
+			call, ok := st.Val.(*ssa.Call)
+			if !ok || betaParam == nil {
+				return
+			}
+			n++
+			uses := false
+			for _, a := range call.Call.Args {
+				var ls []ssa.Value
+				phiLeaves(a, nil, map[ssa.Value]bool{}, &ls)
+				for _, l := range ls {
+					if l == ssa.Value(betaParam) {
+						uses = true
+					}
+					if cv, ok := l.(*ssa.Convert); ok && cv.X == ssa.Value(betaParam) {
+						uses = true
+					}
+				}
+			}
+			c.sawFn(fnName(nw))
+			c.judge(uses, "R-DEPTH-BUDGET", "stree.New:limit built from the balance factor", st.Pos(), "the limit function is constructed from New's balance parameter", "the depth-limit function New installs is not built from the balance factor it was given (a constant or another value is passed): every tree gets the same limit whatever its balance factor")
+		})
 	}
 	// (c) entry budget
 	for _, name := range []string{"Add", "Replace"} {
